@@ -1101,16 +1101,17 @@ where
         if let Some(comments) = &self.comments {
             comments.with_leading(span.lo, |comments| {
                 let pragma = comments.iter().find_map(|comment| {
-                    let trimmed = comment.text.trim();
-                    trimmed
-                        .strip_prefix('*')
-                        .unwrap_or(trimmed)
-                        .trim()
-                        .strip_prefix("@jsx")
-                        // `@jsxImportSource`, `@jsxRuntime`, `@jsxFrag` are other annotations
-                        .filter(|rest| rest.starts_with(char::is_whitespace))
-                        // the factory is the first word
-                        .and_then(|rest| rest.split_whitespace().next())
+                    // the annotation may sit on its own line of a doc block, behind the leading `*`
+                    comment.text.lines().find_map(|line| {
+                        line.trim()
+                            .trim_start_matches('*')
+                            .trim()
+                            .strip_prefix("@jsx")
+                            // `@jsxImportSource`, `@jsxRuntime`, `@jsxFrag` are other annotations
+                            .filter(|rest| rest.starts_with(char::is_whitespace))
+                            // the factory is the first word
+                            .and_then(|rest| rest.split_whitespace().next())
+                    })
                 });
                 if let Some(pragma) = pragma {
                     self.pragma = Some(pragma.to_string());
